@@ -88,11 +88,17 @@ func VH_C03_hostile() {
 			hp, hl = hostilePathsR, hostileLinksR
 		}
 		if deep > 0 {
-			hp, hl = []string{chain + "/m", chain + "/m/f"}, []string{"", out + "/sub"}
+			hp, hl = []string{chain + "/m", chain + "/m/f", chain + "/n"}, []string{"", out + "/sub"}
 		}
 		p := hp[v.Choose("path", len(hp))]
 		link := hl[v.Choose("link", len(hl))]
-		mode := v.U32("mode")
+		mode := uint32(0)
+		if deep > 0 {
+			// three entry classes (the fully symbolic mode is covered by the shallow obligations)
+			mode = []uint32{uint32(os.ModeDir) | 0755, 0644, uint32(os.ModeSymlink) | 0777}[v.Choose("class", 3)]
+		} else {
+			mode = v.U32("mode")
+		}
 		st := &types.Stat{Path: p, Mode: mode, Linkname: link, Uid: 9, Gid: 9, ModTime: mtimeChoices[0]}
 		fm := os.FileMode(mode)
 		ok := spec.accept(p, fm.IsDir(), false)
